@@ -440,8 +440,9 @@ FIELD_SHAPES = ["f%d", "foo_bar%d", "fooBaz%d", "x_%d", "a%d_b", "Zed%d", "long_
 class Gen:
     """Builds a valid program and records the sites the mutators work on."""
 
-    def __init__(self, rng):
+    def __init__(self, rng, small=False):
         self.rng = rng
+        self.small = small         # quick tier: fewer elements per message, nesting depth 2
         self.n = 0                 # global counter for unique names
         self.files = []
         self.types = []            # {fqn, kind: message|enum, file: index, syntax, extr: [...], first_zero, values}
@@ -522,15 +523,16 @@ class Gen:
         if alias:
             elems.append({"k": "option", "name": "allow_alias", "val": {"t": "ident", "v": "true"}})
             vals.append({"k": "value", "name": "%s_ALIAS" % name.upper(), "num": nums[r.below(len(nums))]})
-        elif r.chance(1, 12):
+        elif r.chance(1, 80):
+            # protoc rejects an explicit false (documented divergence): keep it rare in valid programs
             elems.append({"k": "option", "name": "allow_alias", "val": {"t": "ident", "v": "false"}})
         elems += vals
-        if r.chance(1, 3):
+        if r.chance(1, 3) and max(nums) < 2**31 - 200:
             hi = max(nums) + 1
             rs = self.gen_ranges(hi + 1, hi + 40, r.range(1, 3))
             if r.chance(1, 4):
                 rs.append({"s": hi + 50, "e": None, "max": True})
-            if r.chance(1, 4) and min(nums) > -100:
+            if r.chance(1, 4) and -100 < min(nums):
                 rs.append({"s": min(nums) - 9, "e": min(nums) - 1, "max": False})
             if rs:
                 elems.append({"k": "reserved", "ranges": r.shuffle(rs)})
@@ -630,24 +632,27 @@ class Gen:
                     opts.append({"name": "default", "val": dv})
             return {"k": "field", "label": lbl, "type": tyname, "name": nm, "num": fresh_num(), "opts": r.shuffle(opts)}
 
-        nel = r.range(1, 6)
+        nel = r.range(1, 4 if self.small else 6)
+        maxdepth = 2 if self.small else 3
         for _ in range(nel):
             k = r.below(20)
             if k < 10:
                 body.append(mk_field())
             elif k < 12:
                 vt = gen_type()
+                if isinstance(vt, tuple) and vt[1]["kind"] == "enum" and vt[1]["syntax"] == "proto2" and syntax == "proto3":
+                    vt = "int32"
                 vtn = self.spell(fi, fqn, vt[1]) if isinstance(vt, tuple) else vt
                 nm = self.gen_field_name(used_json)
                 body.append({"k": "map", "key": r.choice(MAP_KEYS), "val": vtn, "name": nm, "num": fresh_num(), "opts": []})
             elif k < 14:
                 els = [mk_field(True) for _ in range(r.range(1, 3))]
-                if syntax == "proto2" and depth < 3 and r.chance(1, 4):
+                if syntax == "proto2" and depth < maxdepth and r.chance(1, 4):
                     els.append(self.gen_group(fi, fqn, syntax, depth, "", fresh_num, used_json))
                 body.append({"k": "oneof", "name": self.uniq("oo"), "elems": els})
-            elif k < 15 and syntax == "proto2" and depth < 3:
+            elif k < 15 and syntax == "proto2" and depth < maxdepth:
                 body.append(self.gen_group(fi, fqn, syntax, depth, r.choice(["optional", "repeated", "required"]), fresh_num, used_json))
-            elif k < 17 and depth < 3:
+            elif k < 17 and depth < maxdepth:
                 body.append(self.gen_message(fi, fqn, syntax, depth + 1))
             elif k < 19:
                 body.append(self.gen_enum(fi, fqn, syntax))
@@ -746,7 +751,7 @@ class Gen:
 
     def program(self, nfiles=None):
         r = self.rng
-        nfiles = nfiles or r.choice([1, 1, 2, 2, 3, 4])
+        nfiles = nfiles or (r.choice([1, 1, 1, 2, 2, 3]) if self.small else r.choice([1, 1, 2, 2, 3, 4]))
         self.imports_idx, self.public_idx = [], []
         for fi in range(nfiles):
             syntax = r.choice(["proto2", "proto2", "proto3", "proto3", "editions"])
@@ -764,7 +769,7 @@ class Gen:
             f = {"name": "f%d.proto" % fi, "syntax": syntax, "edition": "2023" if syntax == "editions" else "",
                  "package": pkg, "imports": imports, "decls": []}
             self.files.append(f)
-            for _ in range(r.range(1, 3)):
+            for _ in range(r.range(1, 2 if self.small else 3)):
                 f["decls"].append(self.gen_message(fi, pkg or "", syntax, 1))
             for _ in range(r.range(0, 2)):
                 f["decls"].append(self.gen_enum(fi, pkg or "", syntax, True))
@@ -935,20 +940,16 @@ class Mutator:
         return self._touch_ranges(files, "extensions", "extensions") if m else None
 
     def m_extension_vs_reserved_touch(self, files):
-        ms = [m for m in msg_sites(files) if syntax_of(files, m[0]) != "proto3" and any(e["k"] == "reserved" for e in m[3]["body"])]
-        if not ms:
-            return None
-        return self._touch_ranges([files[i] if i == ms[0][0] else {"decls": []} for i in range(len(files))] and files, "reserved", "extensions")
+        return self._touch_ranges(files, "reserved", "extensions")
 
     def m_reserved_vs_extension_touch(self, files):
         return self._touch_ranges(files, "extensions", "reserved")
 
     def m_range_shape(self, files):
         s = self.pick(all_sites(files, ("reserved", "extensions")))
-        if not s or s[4] == [] and False:
+        if not s:
             return None
         rg = self.pick(s[3]["ranges"])
-        in_enum = False
         k = self.rng.below(8)
         if k == 0:
             rg["s"], rg["e"], rg["max"] = 7, 5, False
@@ -1713,11 +1714,11 @@ def c02_terms(files, out):
     return "C02Case %s %s" % (fs, obs), "SpecDesc %s %s" % (fs, obs)
 
 
-def gen_cases(rng, nprog, nmut):
+def gen_cases(rng, nprog, nmut, small=False):
     """[(label, asts)] : valid programs and single-rule mutants of them"""
     progs = []
     for _ in range(nprog):
-        g = Gen(rng)
+        g = Gen(rng, small)
         files = g.program()
         progs.append(("valid", files))
         mu = Mutator(rng)
@@ -1797,3 +1798,58 @@ def strip_unmodelled_defaults(ast, obs):
         for f in obs["extensions"]:
             if (f["name"],) in drop:
                 f["has_default"], f["default"] = False, ""
+
+
+def cached_eval(name, terms, chk, shard_size):
+    """coq_eval_mismatches for inputs that do not depend on the implementation under test (protoc's
+    goldens and case tables evaluated by the specification): the result is a function of the
+    terms and of the Coq sources, so it is cached under .cache keyed by their hash."""
+    import hashlib
+    import json
+    import os
+    from vlib import coq_eval_mismatches, COQ, CACHE
+    h = hashlib.sha1()
+    h.update((HEADER + "\0" + chk + "\0").encode())
+    for f in COQ_MODEL_FILES:
+        h.update(open(os.path.join(COQ, f), "rb").read())
+    for t in terms:
+        h.update(t.encode())
+        h.update(b"\0")
+    d = os.path.join(CACHE, "miniproto-spec")
+    os.makedirs(d, exist_ok=True)
+    p = os.path.join(d, name + "-" + h.hexdigest()[:20] + ".json")
+    if os.path.exists(p):
+        return json.load(open(p)), None
+    bad, err = coq_eval_mismatches(name, HEADER, terms, chk, shard_size=shard_size)
+    if not err:
+        json.dump(bad, open(p, "w"))
+    return bad, err
+
+
+def golden_label(repo, path):
+    import os
+    return os.path.relpath(path, os.path.join(repo, "internal", "testdata"))
+
+
+def load_goldens(ctx, repo):
+    """[(label, asts in dependency order, {file name: observed projection})] for every protoc-made
+    descriptor set whose sources are in the repository and inside the fragment (options that do not
+    affect the projected fields are dropped; float defaults are dropped on both sides)"""
+    sets = []
+    for ps in golden_sets(repo):
+        o = ctx.impl("miniproto", [{"mode": "protoset", "path": ps}], shards=1)[0]
+        fds = o.get("fds", [])
+        srcs = {fd["name"]: golden_source(repo, fd["name"]) for fd in fds}
+        if not fds or any(v is None for v in srcs.values()):
+            continue
+        sets.append((golden_label(repo, ps), srcs, {fd["name"]: fd for fd in fds}))
+    parsed = parse_sets(ctx, [s for _, s, _ in sets])
+    out, skipped = [], []
+    for (label, _, obs), (asts, why) in zip(sets, parsed):
+        if asts is None or any(w.startswith(("syntax", "import outside", "edition", "missing", "map key", "visibility")) or "features" in w for w in why):
+            skipped.append(label)
+            continue
+        for f in asts:
+            strip_unmodelled_defaults(f, obs.get(f["name"]))
+        out.append((label, asts, obs))
+    return out, skipped
